@@ -178,6 +178,18 @@ impl World {
             .map(|(k, q, l)| if *k == 0 { format!("{{\"q\":{},{}", q, &l[1..]) } else { l.clone() })
             .collect()
     }
+    /// register-level events (stream 2)
+    pub fn reg(&mut self, v: Value) {
+        self.trace.push((2, 0xffff, v.to_string()));
+    }
+    /// register-level events plus the named driver-level markers
+    pub fn m_lines(&self, also: &[&str]) -> Vec<String> {
+        self.trace
+            .iter()
+            .filter(|(k, _, l)| *k == 2 || (*k == 1 && also.iter().any(|n| l.contains(&format!("\"e\":\"{}\"", n)))))
+            .map(|(_, _, l)| l.clone())
+            .collect()
+    }
     /// heap frees of memory still shared with the device, noticed by the allocator interposer
     pub fn drain_frees(&mut self) {
         for (q, pa) in crate::alloc::take_freed() {
@@ -687,6 +699,8 @@ pub fn reset_world() {
         *w = World::new();
     });
     crate::alloc::reset();
+    crate::mmio::unmap_all();
+    crate::transport::set_negotiated(0);
 }
 
 // -------------------------------------------------------------------------------- LedgerHal
